@@ -182,8 +182,10 @@ class HTMLFormFiller(object):
                     option_start = option_value = None
                     option_text = []
                 elif in_textarea and tagname == 'textarea':
+                    if textarea_value is not None:
+                        textarea_value = six.text_type(textarea_value)
                     if textarea_value:
-                        yield TEXT, six.text_type(textarea_value), pos
+                        yield TEXT, textarea_value, pos
                         textarea_value = None
                     in_textarea = False
                 yield kind, data, pos
